@@ -154,6 +154,34 @@ func c17(c *Ctx) {
 		R.Check("C17.remember-on-success", R.Key("C17.remember-on-success", shortFn(fn), "mapupdate:cache"), c.rel(p.Pos(mu.Pos())), "the (chain, tx) pair is remembered only when the send to the watcher succeeded, with the current clock time", facts.HasAtom(fs, want) && okKey && strings.HasPrefix(facts.Term(mu.Value), "invoke:github.com/benbjohnson/clock.Clock.Now("), "missing fact "+want+"; key="+keyT+" value="+facts.Term(mu.Value), facts.Atoms(fs)...)
 	})
 	R.Floor("C17.remember-on-success", nmu, 1)
+	// one suppression table for the life of the dispatcher: exactly one map of that type is made,
+	// outside the loop — a table replaced while running forgets pairs still inside the window
+	var cacheT types.Type
+	eachInstr(fn, func(i ssa.Instruction) {
+		if mu, ok := i.(*ssa.MapUpdate); ok && cacheT == nil {
+			cacheT = mu.Map.Type()
+		}
+	})
+	nmk, mkInLoop := 0, ""
+	for _, f := range withAnon(fn) {
+		eachInstr(f, func(i ssa.Instruction) {
+			mm, ok := i.(*ssa.MakeMap)
+			if !ok || cacheT == nil || !types.Identical(mm.Type().Underlying(), cacheT.Underlying()) {
+				return
+			}
+			nmk++
+			inLoop := f != fn
+			for _, sc := range mm.Block().Succs {
+				if blockReaches(sc, mm.Block()) {
+					inLoop = true
+				}
+			}
+			if inLoop {
+				mkInLoop = c.rel(p.Pos(mm.Pos()))
+			}
+		})
+	}
+	R.Check("C17.window", "C17.window/single-table", c.rel(p.Pos(fn.Pos())), "the suppression table is created once, before the dispatcher's loop, and never replaced (entries leave it only through the age-tested purge)", nmk == 1 && mkInLoop == "", fmt.Sprintf("%d tables of the cache's type are made; inside the loop: %s", nmk, mkInLoop))
 	// the send requires "not in cache"
 	fsS := facts.At(theSend.Instr, nil)
 	notCached := facts.Has(fsS, func(a string) bool {
